@@ -381,7 +381,7 @@ func concCase(seed uint64, idx int, flush bool) *CaseSpec {
 					close(f.in)
 					select {
 					case <-f.done:
-					case <-time.After(stepTimeout):
+					case <-time.After(stepTO()):
 						mu.Lock()
 						problems = append(problems, "deadlock: a session could not leave")
 						mu.Unlock()
@@ -419,7 +419,7 @@ func concCase(seed uint64, idx int, flush bool) *CaseSpec {
 			select {
 			case <-done:
 				return true
-			case <-time.After(d):
+			case <-time.After(wd(d)):
 				return false
 			}
 		}
